@@ -2,7 +2,13 @@
  * loaded module canonically (the fields property C19 lists).
  *
  * stdin protocol, one request per line:
- *   hex <id> <hexbytes>      load the bytes
+ *   hex <id> <hexbytes>      load the bytes (xmp_load_module_from_memory)
+ *   all <id> <sizes> <hexbytes>   the same, then load the same bytes through the three other entry points:
+ *                            xmp_load_module (a temporary file), xmp_load_module_from_callbacks, and
+ *                            xmp_load_module_from_file once per value of the comma-separated <sizes>
+ *                            (its `size` argument is documented as ignored); after the memory dump one line
+ *                            per entry point: `entry <name> same` | `entry <name> rc <rc>` (a different return
+ *                            code) | `entry <name> differs` followed by that dump, every line prefixed "| "
  *   file <id> <path>         load the file's bytes (still through xmp_load_module_from_memory)
  *   p2n                      dump libxmp_period_to_note(p) for p = 0..4095
  * output per request:
@@ -21,6 +27,8 @@
  * the loop flag is clear, sustain points likewise; XMP_SAMPLE_LOOP_FULL (a player
  * hint derived from tracker heuristics) is masked out of flg.
  */
+#define _GNU_SOURCE
+#include <unistd.h>
 #include "vcommon.h"
 #include "xmp.h"
 #include "common.h"
@@ -56,31 +64,35 @@ static long fast_hex(const char *s, unsigned char **out)
 	return (long)(n / 2);
 }
 
+static FILE *O;
+
 static void put_str_hex(const char *s)
 {
-	put_hex(stdout, s, strlen(s));
+	put_hex(O, s, strlen(s));
 }
 
-static void dump(xmp_context c)
+static void dump(FILE *o, xmp_context c)
 {
 	struct context_data *ctx = (struct context_data *)c;
 	struct module_data *m = &ctx->m;
 	struct xmp_module *mod = &m->mod;
 	int i, j, r, k;
 
-	printf("type ");
+	O = o;
+
+	fprintf(o, "type ");
 	put_str_hex(mod->type);
-	printf("\nname ");
+	fprintf(o, "\nname ");
 	put_str_hex(mod->name);
-	printf("\ncounts %d %d %d %d %d %d %d\n", mod->chn, mod->pat, mod->len, mod->ins, mod->smp, mod->spd, mod->bpm);
-	printf("ord ");
-	put_hex(stdout, mod->xxo, mod->len > 0 ? mod->len : 0);
-	printf("\n");
+	fprintf(o, "\ncounts %d %d %d %d %d %d %d\n", mod->chn, mod->pat, mod->len, mod->ins, mod->smp, mod->spd, mod->bpm);
+	fprintf(o, "ord ");
+	put_hex(o, mod->xxo, mod->len > 0 ? mod->len : 0);
+	fprintf(o, "\n");
 	for (i = 0; i < mod->pat; i++) {
 		struct xmp_pattern *p = mod->xxp[i];
-		printf("pat %d %d ", i, p->rows);
+		fprintf(o, "pat %d %d ", i, p->rows);
 		if (p->rows == 0 || mod->chn == 0)
-			printf("-");
+			fprintf(o, "-");
 		for (r = 0; r < p->rows; r++) {
 			for (k = 0; k < mod->chn; k++) {
 				struct xmp_track *t = mod->xxt[p->index[k]];
@@ -90,30 +102,30 @@ static void dump(xmp_context c)
 					e[1] = t->event[r].ins;
 					e[2] = t->event[r].vol;
 				}
-				put_hex(stdout, e, 3);
+				put_hex(o, e, 3);
 			}
 		}
-		printf("\n");
+		fprintf(o, "\n");
 	}
 	for (i = 0; i < mod->ins; i++) {
 		struct xmp_instrument *xi = &mod->xxi[i];
 		unsigned char km[XMP_MAX_KEYS];
 		int any = 0;
-		printf("ins %d %d ", i, xi->nsm);
+		fprintf(o, "ins %d %d ", i, xi->nsm);
 		put_str_hex(xi->name);
 		for (k = 0; k < XMP_MAX_KEYS; k++) {
 			km[k] = xi->map[k].ins;
 			any |= km[k];
 		}
-		printf(" ");
+		fprintf(o, " ");
 		if (any)
-			put_hex(stdout, km, XMP_MAX_KEYS);
+			put_hex(o, km, XMP_MAX_KEYS);
 		else
-			printf("-");
-		printf("\n");
+			fprintf(o, "-");
+		fprintf(o, "\n");
 		for (j = 0; j < xi->nsm; j++) {
 			struct xmp_subinstrument *s = &xi->sub[j];
-			printf("sub %d %d %d %d %d %d %d\n", i, j, s->sid, s->vol, s->pan, s->xpo, s->fin);
+			fprintf(o, "sub %d %d %d %d %d %d %d\n", i, j, s->sid, s->vol, s->pan, s->xpo, s->fin);
 		}
 	}
 	for (i = 0; i < mod->smp; i++) {
@@ -131,16 +143,16 @@ static void dump(xmp_context c)
 			bytes *= 2;
 		if (flg & XMP_SAMPLE_STEREO)
 			bytes *= 2;
-		printf("smp %d %d %d %d %d %d %d ", i, s->len, lps, lpe, flg, sus, sue);
+		fprintf(o, "smp %d %d %d %d %d %d %d ", i, s->len, lps, lpe, flg, sus, sue);
 		put_str_hex(s->name);
-		printf(" ");
+		fprintf(o, " ");
 		if (s->len <= 0)
-			printf("-");
+			fprintf(o, "-");
 		else if (s->data == NULL)
-			printf("null");
+			fprintf(o, "null");
 		else
-			put_hex(stdout, s->data, bytes);
-		printf("\n");
+			put_hex(o, s->data, bytes);
+		fprintf(o, "\n");
 	}
 }
 
@@ -153,10 +165,148 @@ static void load_and_dump(const char *id, const unsigned char *buf, long n)
 	if (rc != 0) {
 		printf("loadfail %d\n", rc);
 	} else {
-		dump(c);
+		dump(stdout, c);
 		xmp_release_module(c);
 	}
 	xmp_free_context(c);
+	printf("end\n");
+	fflush(stdout);
+}
+
+/* ---- the other entry points ------------------------------------------------------------------- */
+
+struct cbuf { const unsigned char *p; long n, pos; };
+
+static unsigned long cb_read(void *dest, unsigned long len, unsigned long nmemb, void *priv)
+{
+	struct cbuf *b = (struct cbuf *)priv;
+	unsigned long want, can;
+	if (len == 0 || nmemb == 0)
+		return 0;
+	can = b->pos >= b->n ? 0 : (unsigned long)(b->n - b->pos) / len;
+	want = nmemb < can ? nmemb : can;
+	memcpy(dest, b->p + b->pos, want * len);
+	b->pos += (long)(want * len);
+	return want;
+}
+
+static int cb_seek(void *priv, long offset, int whence)
+{
+	struct cbuf *b = (struct cbuf *)priv;
+	long t = whence == SEEK_SET ? offset : whence == SEEK_CUR ? b->pos + offset : whence == SEEK_END ? b->n + offset : -1;
+	if (t < 0)		/* like fseek: positions past the end are allowed, reads there return nothing */
+		return -1;
+	b->pos = t;
+	return 0;
+}
+
+static long cb_tell(void *priv) { return ((struct cbuf *)priv)->pos; }
+static int cb_close(void *priv) { (void)priv; return 0; }
+
+/* dump of a loaded context as a malloc'd string */
+static char *dump_str(xmp_context c)
+{
+	char *s = NULL;
+	size_t n = 0;
+	FILE *o = open_memstream(&s, &n);
+	if (o == NULL)
+		return NULL;
+	dump(o, c);
+	fclose(o);
+	return s;
+}
+
+static void report_entry(const char *name, int rc0, const char *d0, int rc, xmp_context c)
+{
+	if (rc != rc0) {
+		printf("entry %s rc %d\n", name, rc);
+	} else if (rc == 0) {
+		char *d = dump_str(c);
+		/* the `type` line (tracker identification) is not part of the property: compare from the `name` line on */
+		const char *a = d && !strncmp(d, "type ", 5) && strchr(d, '\n') ? strchr(d, '\n') + 1 : d;
+		const char *b = d0 && !strncmp(d0, "type ", 5) && strchr(d0, '\n') ? strchr(d0, '\n') + 1 : d0;
+		if (a != NULL && b != NULL && strcmp(a, b) == 0) {
+			printf("entry %s same\n", name);
+		} else {
+			char *l, *save = NULL;
+			printf("entry %s differs\n", name);
+			for (l = d ? strtok_r(d, "\n", &save) : NULL; l != NULL; l = strtok_r(NULL, "\n", &save))
+				printf("| %s\n", l);
+		}
+		free(d);
+	} else {
+		printf("entry %s same\n", name);
+	}
+	if (rc == 0)
+		xmp_release_module(c);
+}
+
+static void load_all(const char *id, const char *sizes, const unsigned char *buf, long n)
+{
+	xmp_context c = xmp_create_context();
+	char *d0 = NULL, path[512], *sz, *tok, *save = NULL;
+	const char *dir = getenv("C19_TMPDIR");
+	int rc0, rc, fd;
+	FILE *f;
+
+	printf("begin %s\n", id);
+	rc0 = xmp_load_module_from_memory(c, buf, n);
+	if (rc0 != 0) {
+		printf("loadfail %d\n", rc0);
+	} else {
+		d0 = dump_str(c);
+		fputs(d0 ? d0 : "", stdout);
+		xmp_release_module(c);
+	}
+	xmp_free_context(c);
+
+	snprintf(path, sizeof path, "%s/c19rt-XXXXXX", dir && *dir ? dir : "/tmp");
+	fd = mkstemp(path);
+	if (fd < 0 || (f = fdopen(fd, "wb")) == NULL) {
+		printf("entry tmpfile rc -999\nend\n");
+		fflush(stdout);
+		free(d0);
+		return;
+	}
+	fwrite(buf, 1, (size_t)n, f);
+	fclose(f);
+
+	/* path */
+	c = xmp_create_context();
+	rc = xmp_load_module(c, path);
+	report_entry("path", rc0, d0, rc, c);
+	xmp_free_context(c);
+
+	/* callbacks */
+	{
+		struct cbuf b = { buf, n, 0 };
+		struct xmp_callbacks cb = { cb_read, cb_seek, cb_tell, cb_close };
+		c = xmp_create_context();
+		rc = xmp_load_module_from_callbacks(c, &b, cb);
+		report_entry("callbacks", rc0, d0, rc, c);
+		xmp_free_context(c);
+	}
+
+	/* FILE with every advisory size */
+	sz = strdup(sizes);
+	for (tok = strtok_r(sz, ",", &save); tok != NULL; tok = strtok_r(NULL, ",", &save)) {
+		char name[64];
+		long v = strtol(tok, NULL, 10);
+		snprintf(name, sizeof name, "file:%ld", v);
+		f = fopen(path, "rb");
+		if (f == NULL) {
+			printf("entry %s rc -998\n", name);
+			continue;
+		}
+		c = xmp_create_context();
+		rc = xmp_load_module_from_file(c, f, v);
+		report_entry(name, rc0, d0, rc, c);
+		xmp_free_context(c);
+		fclose(f);
+	}
+	free(sz);
+	unlink(path);
+	free(d0);
 	printf("end\n");
 	fflush(stdout);
 }
@@ -183,7 +333,18 @@ int main(void)
 		arg = strtok(NULL, " ");
 		if (id == NULL || arg == NULL)
 			continue;
-		if (!strcmp(kind, "hex")) {
+		if (!strcmp(kind, "all")) {
+			char *hx = strtok(NULL, " ");
+			unsigned char *b = NULL;
+			long n = hx ? fast_hex(hx, &b) : -1;
+			if (n <= 0) {
+				printf("begin %s\nbadhex\nend\n", id);
+				free(b);
+				continue;
+			}
+			load_all(id, arg, b, n);
+			free(b);
+		} else if (!strcmp(kind, "hex")) {
 			unsigned char *b = NULL;
 			long n = fast_hex(arg, &b);
 			if (n < 0) {
